@@ -82,6 +82,37 @@ CHECKS = {
         technique="Lean 4 theorems about a hand-written model of Pygments' Lexer.get_tokens preprocessing + RegexLexer loop + one matcher per regex of the regenerated rule table; table lemmas (rules_known, cover_ok, opts_known) over the regenerated tables; exact model-vs-implementation comparison of token lists and of every rule's compiled regex; property oracle on the real lexer",
         text="Kernel-checked for ALL texts (lists of Unicode scalar values) about the model: the lexer loop always terminates with a token list (every rule application consumes >= 1 character, no empty match, no missing state), the token texts of get_tokens_unprocessed concatenate to exactly the input, get_tokens' token texts concatenate to the preprocessed input, and no Error token is ever emitted (for any text, not only accepted programs). The literal property is false on the pinned code (Pygments defaults strip a leading U+FEFF, leading and trailing newlines and normalise CR): proved instead under the decidable guard Clean, which is shown to be exact (no_text_lost_iff), with kernel-checked counterexamples; the four defect shapes are recorded as known findings and replayed on the real lexer on every run.",
         note=COMMON_NOTE + "Pygments' RegexLexer engine, Lexer.get_tokens and Python's re module are MODELLED by hand, not verified: the tie is the per-run differential comparison (token lists on generated texts incl. exhaustive enumeration over the delimiter alphabet, every rule's compiled regex object vs the Lean matcher at random positions) plus table lemmas that fail to build when a regex, flag, state action or lexer option outside the modelled set appears. Unicode \\w/\\d membership tables are read from the running interpreter's re. words(): regex_opt's alternation order is argued irrelevant (keywords are ASCII word-character strings followed by \\b), not proved. Lone surrogates and bytes input are outside the model (surrogates are exercised on the real lexer only)."),
+    "C10": dict(
+        level="other", design="4/C10",
+        technique="(A) Lean 4 theorems about a hand-written model of the compiler's rejection sites (lean/ESV/Static/Wf.lean: add phase and collect phase of every "
+                  "compile handler in the real collect order, macro cycle check, import recursion with recursion_check, macros_only, strip_last_label on an "
+                  "op-free routine, OpsLabelJumpToRemover) on a static AST produced by the harness from the surface AST, tied to /repo on every run by "
+                  "exception-CLASS equality on generated statically invalid / valid programs and import worlds; (B) exploration of compile() on generated "
+                  "strings in worker processes (time and memory limits) with delta-debugged failing inputs; compile CLI run in a subprocess",
+        text="Split claim, reported separately in the evidence. PROOF (part A, kernel-checked for ALL static ASTs, ALL imported macro sets, ALL import worlds): "
+             "a program containing `break` at a position not enclosed by a switch case (loops do not reset the case flag, macro bodies do), `continue`/`break_loop` "
+             "outside a loop, a switch ending in a case without statements, two defaults (switch or message switch), a message-switch case holding statements, "
+             "a label in a with-block, `not` on a bit test of a variable other than the performance progress list (if/elseif/while/for header), a call of an unknown "
+             "macro, a call leaving a macro variable without value (ValueError), recursion among the file's macros (cycle check proved complete: macroCycle_of_closed), "
+             "a missing import, an import cycle reachable from the compiled file, or a failing imported file is rejected by the model with a documented class "
+             "(rejects_* theorems, one per shape, plus core_rejects_* for Static.check on the core AST). A jump or call to a label no routine places (labels placed only "
+             "in macro bodies do not count; jumps inside macro expansions are private) is always rejected (rejects_jump_undefined) and with a documented class under the "
+             "decidable guard `Guard` (no routine consists of calls of label-only macros: the pinned strip_last_label raises IndexError there first — "
+             "error_kinds_counterexample, rejects_jump_undefined_counterexample, replayed on the real code every run). error_kinds: the model's only other class is that "
+             "IndexError. 'Routines in an imported file' is FALSE on the pinned code (routines_in_import_accepted, ssbscript_import_accepted: kernel-checked witnesses, "
+             "reproduced on the real compiler every run, known findings); it is proved for the model variant in which HasRoutinesVisitor visits the tree "
+             "(rejects_routines_in_import_if_reparsed). EXPLORATION (part B, no theorem): 'never another exception type' over strings — token/character corruptions of "
+             "valid programs, degenerate routines, routine headers, huge numbers, //?: attribute lines in all positions, SsbScript sources behind the attribute, random "
+             "Unicode, nesting up to 200; quick 3 200 strings, thorough 127 000. Every undocumented (type, innermost repository frame) pair of the pinned tree is listed in "
+             "known_findings.jsonl (17 kinds incl. two no-answer shapes); a new pair, an accepted defect, output left after a rejection, or a CLI that exits 0 / prints JSON "
+             "on rejection is a VIOLATION.",
+        note=COMMON_NOTE + "Part B is exploration only: the ANTLR runtime and the generated lexers/parsers are not modelled, so the exception class for an arbitrary string is "
+             "searched, not proved. The model covers the rejection sites, not the back end: the op-offset assert, LabelFinalizer, the routine table (negative / descending / "
+             "huge routine ids, decimal routine targets) are outside it and appear as known findings of part B. The compile order of the macros of one file (macro resolution "
+             "order, defect A4 of C05) is not modelled; generated macro call graphs are forests and a too-few-arguments call is never combined with a defect in another macro "
+             "body. Import paths are resolved by the harness (posix normalisation, lookup directories); realpath/symlinks are not modelled. Import recursion uses fuel = number "
+             "of files + 1; running out of fuel is reported as the SsbCompilerError the implementation raises one level earlier (pigeonhole argument, not proved). "
+             "Workers run compile() with Python's default recursion limit (1000) and 1500 MB address space."),
 }
 
 PENDING_REASON = "check not built yet in this round (design in DESIGN.md §4); will be claimed once its Lean model and correspondence exist"
